@@ -105,6 +105,8 @@ class ModelTie:
                     return [u["scope"], [fidx[u["file"].split("/")[-1]], u["l0"], u["c0"], u["l1"], u["c1"]]]
                 if key.startswith("sym:"):
                     ty = ["sym", int(key[4:])]
+                elif key.startswith("una:"):
+                    ty = ["una", int("".join(ch for ch in key if ch.isdigit()) or 0)]
                 else:
                     ty = ["file", fidx.get(key[5:].split("/")[-1], 99)]
                 analysis.append({"ty": ty, "location": loc(d["location"]) if d["location"] else None, "usages": [loc(u) for u in d["usages"]]})
@@ -127,6 +129,8 @@ class ModelTie:
                 for ty in a["found"]:
                     key = ("sym:%d" % ty[1]) if ty[0] == "sym" else None
                     d = r["definitions"].get(key) if key else None
+                    if ty[0] == "una":
+                        d = next((v for k, v in r["definitions"].items() if k.startswith("una:") and int("".join(ch for ch in k if ch.isdigit()) or 0) == ty[1]), None)
                     if d is None:
                         d = next((v for k, v in r["definitions"].items() if k.startswith("file:") and fidx.get(k[5:].split("/")[-1]) == ty[1]), None)
                     lo = d["location"] if d else None
@@ -172,14 +176,25 @@ class RenameTie:
 
         def loc(u):
             return [u["scope"], [fidx[u["file"].split("/")[-1]], u["l0"], u["c0"], u["l1"], u["c1"]]]
+        def names_in(text):
+            """rename.rs names_in: the words of the text with their offsets, except the second one (`as`)"""
+            out, off = [], 0
+            for idx, w in enumerate(text.split()):
+                st = text.index(w, off)
+                off = st + len(w)
+                if idx != 1:
+                    out.append([st, w])
+            return out
         analysis, slices = [], []
         for key, d in sorted(r["definitions"].items()):
-            ty = ["sym", int(key[4:])] if key.startswith("sym:") else ["file", fidx.get(key[5:].split("/")[-1], 99)]
+            ty = (["sym", int(key[4:])] if key.startswith("sym:") else
+                  ["una", int("".join(ch for ch in key if ch.isdigit()) or 0)] if key.startswith("una:") else
+                  ["file", fidx.get(key[5:].split("/")[-1], 99)])
             analysis.append({"ty": ty, "location": loc(d["location"]) if d["location"] else None, "usages": [loc(u) for u in d["usages"]]})
             for u in d["usages"] + ([d["location"]] if d["location"] else []):
                 f = u["file"].split("/")[-1]
                 if u["l0"] == u["l1"] and f in lines and u["l0"] < len(lines[f]):
-                    slices.append([[fidx[f], u["l0"], u["c0"], u["l1"], u["c1"]], lines[f][u["l0"]][u["c0"]:u["c1"]]])
+                    slices.append([[fidx[f], u["l0"], u["c0"], u["l1"], u["c1"]], names_in(lines[f][u["l0"]][u["c0"]:u["c1"]])])
         self.state = {"graph": model_graph(r["nodes"]), "analysis": analysis, "slices": slices, "fuel": len(r["nodes"]) + 2,
                       "names": names, "fidx": fidx, "found_at": {(x[0].split("/")[-1], x[1], x[2]): x[3] for x in r["found_at"]},
                       "definitions": r["definitions"], "files": files}
@@ -192,7 +207,7 @@ class RenameTie:
         if len(found) > 1:
             self.n["rename_order_dependent"] += 1   # the handler takes the first of a hash map
             return
-        m = self.model.call({"cmd": "rename", "graph": st["graph"], "analysis": st["analysis"], "slices": st["slices"], "fuel": st["fuel"],
+        m = self.model.call({"cmd": "rename", "analysis": st["analysis"], "names": st["slices"],
                              "requests": [[st["fidx"][o.file], o.line, col, new_name]]}, timeout=60.0)
         self.n["rename_requests"] += 1
         ans = (m.get("answers") or [None])[0]
@@ -217,12 +232,12 @@ class RenameTie:
             a -= 1
         while b < len(line) and (line[b].isalnum() or line[b] == "_"):
             b += 1
-        m = self.model.call({"cmd": "classify_rename", "graph": st["graph"], "analysis": st["analysis"], "slices": st["slices"],
-                             "fuel": st["fuel"], "requests": [[st["fidx"][o.file], o.line, col, line[a:b]]]}, timeout=60.0)
+        m = self.model.call({"cmd": "classify_rename", "analysis": st["analysis"],
+                             "requests": [[st["fidx"][o.file], o.line, col, line[a:b]]]}, timeout=60.0)
         a = (m.get("answers") or [None])[0]
         if not isinstance(a, dict):
             return None, None
-        return a.get("known_import_alias"), a.get("prepare")
+        return None, a.get("prepare")
 
     def finish(self, stats):
         stats["rename_tie"] = self.n
